@@ -2,7 +2,7 @@
 (* spec -> code: every line sequence of length <= MaxLines over the alphabet
    (all moves incl. self-moves, one slotmove per name and slot pair, malformed lines of the
    given kinds), cut into up to three update files in every way (sequences longer than
-   FullSplits lines: unsplit, halved, and 1|1|rest only).  Files get quarter names whose
+   FullSplits lines: unsplit and halved only, three lines also 1|1|1).  Files get quarter names whose
    lexicographic order is the reverse of their chronological order.
    A malformed line carries its kind in s1 (the driver renders it); a, b name the packages
    it mentions.                                                                            *)
@@ -20,7 +20,7 @@ Keys(m) == CASE m = 1 -> <<[y |-> 2020, q |-> 1]>>
              [] OTHER -> <<[y |-> 2019, q |-> 4], [y |-> 2020, q |-> 3], [y |-> 2021, q |-> 1]>>
 \* cuts: a set of positions after which a new file starts
 CutSets(n) == IF n <= FullSplits THEN {c \in SUBSET (1..(n - 1)) : Cardinality(c) <= 2}
-              ELSE {{}, {n \div 2}, {1, 2}}
+              ELSE {{}, {n \div 2}} \cup (IF n <= 3 THEN {{1, 2}} ELSE {})
 Part(seq, cuts, j) ==      \* j-th part of seq under the cut set
     LET cs == SetToSortSeq(cuts, <)
         lo == IF j = 1 THEN 1 ELSE cs[j - 1] + 1
